@@ -26,11 +26,11 @@ CHECKS.update({
  'C04': ('model_checking', '18 key-tuple alphabets plus a pairwise collision search over separator/escape/marker characters (2 and 3 columns) (separator-like strings, NULL marker text, empty string, NULL, missing, numbers, upper(k); 0..3 columns) x 4 window kinds x all row sequences of length<=4/5; delivered (group,ids) multiset must equal the typed-tuple reference grouping', 'DESIGN.md 3/C04', SEQ_NOTE, DET),
  'C08': ('model_checking', 'as C01 for sliding windows: 5 size/slide pairs (dividing, not dividing, equal, slide>size) x MAXOUTOFORDERNESS x feed policy (also a 36 h jump of event time, strategy block with a lagging consumer) against ref.Sliding, plus schedule exploration of the window object', 'DESIGN.md 3/C08', SEQ_NOTE + '; ' + SCHED_NOTE, DET + ' + stateless schedule DFS on the window object'),
  'C09': ('model_checking', 'all key sequences (length<=7/9 over 3 keys, canonical) x N x 1|2 grouping columns (incl. tuples with a missing column) x eager|lazy feed, with pauses of 1.5 s/25 s virtual time without/with STATETTL, function-expression and mixed-spelling keys, strategy block with a one-batch output buffer and a lagging consumer, against the per-key batching reference, plus all schedules (<=1/2 deviations) of producer, processor, counting-window goroutine and consumer for fixed sequences', 'DESIGN.md 3/C09', SEQ_NOTE + '; ' + SCHED_NOTE, DET + ' + stateless schedule DFS of the full pipeline'),
- 'C10': ('model_checking', 'all per-key timestamp sequences (length<=4/5 over gaps below/at/above the timeout and out-of-order arrivals) x timeout x MAXOUTOFORDERNESS x 1..2 keys under both extreme feed policies (also strategy block with a lagging consumer), a pairwise group-key identity search (NULL, missing, '', marker-like texts); oracle = the stated session constraints and eager==lazy for in-order input', 'DESIGN.md 3/C10', SEQ_NOTE, DET + ' under two feed schedules'),
+ 'C10': ('model_checking', 'all per-key timestamp sequences (length<=4/5 over gaps below/at/above the timeout and out-of-order arrivals) x timeout x MAXOUTOFORDERNESS x 1..2 keys under both extreme feed policies (also strategy block with a lagging consumer), a pairwise group-key identity search (NULL, missing, the empty text, marker-like texts); oracle = the stated session constraints and eager==lazy for in-order input', 'DESIGN.md 3/C10', SEQ_NOTE, DET + ' under two feed schedules'),
 })
 
 CHECKS.update({
- 'C05': ('model_checking', 'all SELECT lists of 1..2/3 items from 12 item kinds (incl. quoted text holding the other quote character or ':') x 8 WHERE clauses on 160 rows, and the documented nested access paths (arr[0], arr[-1], d["x"], ds[1].x, mat[1][0]) as items and in WHERE on 360 rows, through EmitSync (history = all earlier rows; every 7th row alone), Emit + sync sink and the result channel, against a projection/filter reference; plus all schedules (<=2/3 deviations) of a producer with a sync sink, an async sink and a channel reader (order); auxiliary: a free-running -race pass of Emit || EmitSync on general-path direct queries (results compared with the sequential ones)', 'DESIGN.md 3/C05', SEQ_NOTE + '; ' + SCHED_NOTE, DET + ' + stateless schedule DFS'),
+ 'C05': ('model_checking', 'all SELECT lists of 1..2/3 items from 12 item kinds (incl. quoted text holding the other quote character or a colon) x 8 WHERE clauses on 160 rows, and the documented nested access paths (arr[0], arr[-1], d["x"], ds[1].x, mat[1][0]) as items and in WHERE on 360 rows, through EmitSync (history = all earlier rows; every 7th row alone), Emit + sync sink and the result channel, against a projection/filter reference; plus all schedules (<=2/3 deviations) of a producer with a sync sink, an async sink and a channel reader (order); auxiliary: a free-running -race pass of Emit || EmitSync on general-path direct queries (results compared with the sequential ones)', 'DESIGN.md 3/C05', SEQ_NOTE + '; ' + SCHED_NOTE, DET + ' + stateless schedule DFS'),
  'C06': ('model_checking', 'all generated expression ASTs (arithmetic with precedence/parentheses, comparisons, NOT/AND/OR incl. mixed precedence, searched and simple CASE) in textual variants, in SELECT and WHERE, on 45 typed rows against ref.Expr (SQL three-valued logic), each also with reversed row order on fresh process-wide caches; scalar functions over argument tuples (arity <=2/3, variadic ones always 3) through the call routes', 'DESIGN.md 3/C06', SEQ_NOTE, DET),
  'C07': ('model_checking', 'exhaustive product of SELECT item sets (agg op literal, agg op agg, parenthesised, aggregate over expression / function / CASE, function over aggregate, the same parameterised aggregate twice) x HAVING x ORDER BY x LIMIT x DISTINCT on 5 datasets against a relational reference', 'DESIGN.md 3/C07', SEQ_NOTE, DET),
  'C11': ('model_checking', 'every token string of length <=5/6 over 25 tokens and every byte string of length <=4/5 over 16 hostile bytes after 6 prefixes parsed under panic capture and a hang watchdog; every generated grammar statement (incl. un-aliased JOINs, keyword-bearing identifiers 108 MATCH_RECOGNIZE statements and every spelling of the WITHIN bound) compared field by field with the returned configuration and re-parsed in 12 layouts (token-wise keyword case x separators)', 'DESIGN.md 3/C11', 'trusted base: the statement generator doubles as the expectation; rsql.Parse is called directly (no scheduler needed)', 'bounded-exhaustive enumeration of inputs/programs on the real parser'),
